@@ -23,7 +23,7 @@ KERNELS = ("ht_hash", "ht_mod")
 RULE = ("cases = key set x key dtype x modulus (as C11) x initial value (default 0 / 0 / non-zero scalar / float scalar / per-key array) x "
         "1..5 sample batches (empty, no key, only keys, heavy repetition, few hits with a repeated key on tables of up to 48 keys, non-keys colliding with a non-empty bucket / falling into an "
         "empty bucket / huge); each batch list is also run re-split and permuted on the implementation; distinct = distinct (keys, mod, "
-        "init, batches); non-trivial = >= 2 keys and at least one sample that is a key")
+        "init, batches); per-key initial values include the same non-integer value for every key; non-trivial = >= 2 keys and at least one sample that is a key")
 EXHAUSTIVE = {"quick": False, "thorough": False}
 CORRESPONDENCE_ONLY = ["value dtypes (value_dtype argument, float initial values)"]
 ASSUMPTIONS = ["keys handed to the constructor are distinct"]
